@@ -358,10 +358,11 @@ def obligations(tier):
         X("exec_order", exec_order, parts=[{"n": n} for n in range(0, (3 if tier == "quick" else 4) + 1)],
           labels=("two_ran", "one_skipped"), timeout=300, encoded=(SystemManager.execute_systems,),
           bounds={"n": "0..%d" % (3 if tier == "quick" else 4), "start,end,frequency,timestep": "all ints, f>=1"}),
-        X("midstep_order", midstep, parts=[{"n": 2, "kinds": ["replace"]}, {"n": 3, "kinds": ["replace"]}, {"n": 2, "kinds": ["add"]}],
+        X("midstep_order", midstep, parts=[{"n": 2, "kinds": ["replace"]}, {"n": 3, "kinds": ["replace"]}, {"n": 2, "kinds": ["add"]},
+                                                {"n": 2, "kinds": ["add", "add"]}],
           labels=("removed", "added"), labels_for=lambda p: ("added",), timeout=600,
           encoded=(SystemManager.execute_systems, SystemManager.add_system, SystemManager.remove_system),
-          bounds={"systems": "2..3, one mid-timestep replacement/registration with any priority"}),
+          bounds={"systems": "2..3, one mid-timestep replacement / one or two mid-timestep registrations with any priorities"}),
         X("history", history, parts=_histories(3 if tier == "quick" else 4) + _TARGETED,
           labels=("add_rejected", "add_third", "removed", "remove_rejected", "added"), labels_for=_hist_labels,
           timeout=300, group=2,
